@@ -61,7 +61,7 @@ FIELD_OPS = [
     "dangling_input", "dup_output", "empty_name", "drop_type", "shuffle_nodes", "self_cycle", "bad_dtype", "bad_attr_type", "bad_dims", "ext_location",
     "ext_numbers", "dup_initializer", "dup_function", "dangling_output", "dup_graph_input", "dangling_device", "deep_nesting", "dup_value_info",
     "tensor_metadata", "missing_opset", "ref_attr", "sparse", "quant", "negative_dims", "string_tensor", "input_is_output", "sub_output_outer", "sub_output_outer", "sub_input_outer", "sub_init_outer", "output_is_initializer", "output_is_initializer",
-    "function_identity", "function_identity",
+    "function_identity", "function_identity", "func_inner_shadow", "func_inner_shadow",
 ]  # fmt: skip
 _IGNORED_PREFIXES = tuple(p for p in {sys.prefix, sys.base_prefix, "/repo", "/verif", "/venv", "/root/.pyenv", "/usr/lib/python3", "/usr/lib/python3.12", "/proc/self"} if p)
 
@@ -340,6 +340,39 @@ def damage_fields(p: onnx.ModelProto, opsl: list) -> None:
                 vi.type.tensor_type.elem_type = 1
             if (c >> 5) % 2:
                 p.ir_version = [7, 8, 9][(c >> 6) % 3]
+        elif kind == "func_inner_shadow" and p.functions:
+            # inside a function, a value of a nested body carries the name of a function input / body value, with
+            # different value info on the two; optionally at an IR version that stores function value info elsewhere
+            cands = []
+            for f in p.functions:
+                for n2 in f.node:
+                    for at in n2.attribute:
+                        if at.HasField("g") and at.g.node:
+                            cands.append((f, at.g))
+            if cands:
+                f, sg = cands[c % len(cands)]
+                outer_names = list(f.input) + [o for n2 in f.node for o in n2.output if o]
+                inner = [n2 for n2 in sg.node if n2.output and n2.output[0]]
+                if outer_names and inner:
+                    tgt = inner[(c >> 3) % len(inner)]
+                    old_name, new_name = tgt.output[0], outer_names[(c >> 6) % len(outer_names)]
+                    tgt.output[0] = new_name
+                    for n2 in sg.node:
+                        for k_ in range(len(n2.input)):
+                            if n2.input[k_] == old_name:
+                                n2.input[k_] = new_name
+                    for o in sg.output:
+                        if o.name == old_name:
+                            o.name = new_name
+                    vi = sg.value_info.add()
+                    vi.name = new_name
+                    vi.type.tensor_type.elem_type = 7
+                    if not any(v.name == new_name for v in f.value_info):
+                        vo = f.value_info.add()
+                        vo.name = new_name
+                        vo.type.tensor_type.elem_type = 1
+                    if (c >> 9) % 3:
+                        p.ir_version = [8, 9][(c >> 11) % 2]
         elif kind == "dup_value_info" and g.value_info:
             vi = g.value_info.add()
             vi.CopyFrom(g.value_info[0])
